@@ -382,7 +382,12 @@ func (g *jsGen) pattern(kind string, depth int) *JSNode {
 	}
 	if r.Intn(2) == 0 {
 		n := &JSNode{K: "arrpat"}
-		for i := 1 + r.Intn(3); i > 0; i-- {
+		nel := 1 + r.Intn(3)
+		restOnly := r.Intn(8) == 0 // [...r]: a pattern made of the rest element only
+		if restOnly {
+			nel = 0
+		}
+		for i := nel; i > 0; i-- {
 			switch r.Intn(6) {
 			case 0:
 				n.Kids = append(n.Kids, &JSNode{K: "hole"})
@@ -394,7 +399,7 @@ func (g *jsGen) pattern(kind string, depth int) *JSNode {
 				n.Kids = append(n.Kids, el)
 			}
 		}
-		if r.Intn(4) == 0 {
+		if restOnly || r.Intn(4) == 0 {
 			n.Kids = append(n.Kids, &JSNode{K: "rest", Kids: []*JSNode{g.pattern(kind, depth+1)}})
 		}
 		return n
